@@ -70,7 +70,7 @@ def run(ck):
                    "the numeric conversion factors themselves are taken from the code (symbolic non-zero constants in the theorems)",
                    "hand model of energy_units.__enter__/__exit__ and set/unset_current_units validated on generated programs"]
     ext = extract(ck)
-    ck.prove(PROPS, extra_modules=["QV.Drive.C05"], also=["QV.Props.C05Composite"])
+    ck.prove(PROPS, extra_modules=["QV.Drive.C05"], also=["QV.Props.C05Composite", "QV.Props.C05HandSwitch"])
     eunits = list(m.units["energy"])
     lines, impl, tol = [], [], []
 
